@@ -148,7 +148,8 @@ def run(ck):
     ]
     ck.level = "proof"
     ck.notes.append("proved (all thread counts, scripts incl. spawns, schedules): serialisation of stop-the-world sections, pause flags "
-                    "only during a section, parked threads released; C15_no_unregistered_runner_during_section (thread creation under "
+                    "only during a section, parked threads released, C15_flagged_until_resumed (a flagged thread stays flagged until the "
+                    "stopper's resume pass, every schedule); C15_no_unregistered_runner_during_section (thread creation under "
                     "the heap guard - spawn_locked, translated from the order of the steps of spawn_native_thread - : while a section is "
                     "in progress every started, unfinished thread is registered, for EVERY schedule), hence "
                     "C15_mutual_exclusion_outside_exit_window / C15_all_stopped_outside_exit_window (Excl15 along every run none of whose "
